@@ -2,6 +2,7 @@ import Pyrtma.Drv.Util
 import Pyrtma.Spec.DataLog
 import Pyrtma.Spec.DataLogFmt
 import Pyrtma.Spec.DataLogFine
+import Pyrtma.Spec.DataLogFiles
 /-! Line-protocol driver for M10 (grammar: see harness/datalog_corr.py). -/
 namespace Pyrtma.Drv.DataLog
 open Pyrtma.DataLog Pyrtma.DataLog.Fmt Pyrtma.Drv
@@ -35,6 +36,10 @@ structure Case where
   alive : Bool := false
   audit : List String := []
   unk : Bool := false                      -- some file of the implementation was not decodable / not looked at
+  fmts : List String := []                 -- formatter of each data set: raw json ql csv
+  encs : List (Nat × FMsg × List Char) := []
+  fbs : List (Nat × List Nat) := []        -- (data set, bytes of a file) in file order
+  hasBytes : Bool := false
   -- F
   fmt : String := ""
   H : Nat := 0
@@ -86,6 +91,36 @@ def cut {α} : List Nat → List α → List (List α)
   | [], _ => []
   | n :: ns, l => l.take n :: cut ns (l.drop n)
 
+def encOf (c : Case) : Enc :=
+  { frame := fun m => ((c.encs.find? (·.1 == m.id)).map (·.2.1)).getD ⟨[], []⟩,
+    text := fun m => ((c.encs.find? (·.1 == m.id)).map (·.2.2)).getD [] }
+
+/-- byte-level tie of a scheduled session: the model's files (`mf i` = the batches each file of data set `i`
+received) rendered through the formatter model against the bytes on disk; the files-read-back clauses of the Spec
+on the bytes on disk -/
+def bytesCheck (c : Case) (n : Nat) (sel : Nat → Sel) (mf : Nat → List (List (List Msg))) : List String × Option String :=
+  if !c.hasBytes then ([], none) else
+  let e := encOf c
+  let res := (List.range n).map (fun i =>
+    let fmt := c.fmts.getD i "csv"
+    let impl : List (List Nat) := (c.fbs.filter (fun (p : Nat × List Nat) => p.1 == i)).map (·.2)
+    let acc := accepted (sel i) false c.ops
+    if fmt == "raw" then
+      let m := (mf i).map (renderRaw e)
+      (if m == impl then none else some s!"bytes ds={i} raw model-lens={m.map List.length} impl-lens={impl.map List.length}",
+       if rawFilesReadBack c.H c.ndbOff (acc.map e.frame) impl then none else some s!"fail raw_files_read_back ds={i}")
+    else if fmt == "ql" then
+      let m := (mf i).map (renderQL c.H e)
+      (if m == impl then none else some s!"bytes ds={i} ql model-lens={m.map List.length} impl-lens={impl.map List.length}",
+       if qlFilesReadBack c.ndbOff (acc.map e.frame) impl then none else some s!"fail ql_files_read_back ds={i}")
+    else if fmt == "json" then
+      let m := (mf i).map (renderJson e)
+      let implc := impl.map (·.map Char.ofNat)
+      (if m == implc then none else some s!"bytes ds={i} json model-lens={m.map List.length} impl-lens={impl.map List.length}",
+       if jsonFilesReadBack (acc.map e.text) implc then none else some s!"fail json_files_read_back ds={i}")
+    else (none, none))
+  ((res.filterMap (·.1)).map (fun d => s!"{c.id} CORR diff {d}"), (res.filterMap (·.2)).head?)
+
 def finishS (c : Case) : List String :=
   let cfg := cfgOf c
   let sched := c.sched ++ roundRobin (c.tail / 2)
@@ -110,7 +145,9 @@ def finishS (c : Case) : List String :=
         let v := verdict (accepted (cfg.sel i) false c.ops) files
         if v == "ok" then none else some s!"{v} ds={i}")
       bad.headD "ok"
-  [corr, s!"{c.id} PROP C17 {prop}"]
+  let (bc, bp) := if st.rpc = .done then bytesCheck c cfg.n cfg.sel (fun i => (st.ds i).fileBatches) else ([], none)
+  let prop := if prop == "ok" then bp.getD "ok" else prop
+  [corr] ++ bc ++ [s!"{c.id} PROP C17 {prop}"]
 
 def finishF (c : Case) : List String :=
   let parts := cut c.part c.msgs
@@ -202,7 +239,10 @@ def finishG (c : Case) : List String :=
           if v == "ok" then none else some s!"{v} ds={i}")
         bad.headD "ok"
       else "ok"
-  [corr, s!"{c.id} PROP C17 {prop}"]
+  let (bc, bp) := if st.rpc = .done then bytesCheck c cfg.n cfg.sel (fun i => (st.ds i).fileLogs.map (fun l => [l]))
+                  else ([], none)
+  let prop := if prop == "ok" then bp.getD "ok" else prop
+  [corr] ++ bc ++ [s!"{c.id} PROP C17 {prop}"]
 
 def step (c : Case) (line : String) : Case × List String :=
   match toks line with
@@ -210,7 +250,12 @@ def step (c : Case) (line : String) : Case × List String :=
   | ["CASE", id, "F", fmt, h, off] => ({ id := id, kind := "F", fmt := fmt, H := natOf h, ndbOff := natOf off }, [])
   | ["CASE", id, "G", period, tail, alive] =>
     ({ id := id, kind := "G", period := natOf period, tail := natOf tail, alive := alive == "1" }, [])
-  | ["DS", sel, iv, k] => ({ c with dss := c.dss ++ [(parseSel sel, natOf iv)], kinds := c.kinds ++ [parseKind k] }, [])
+  | ["DS", sel, iv, k] =>
+    ({ c with dss := c.dss ++ [(parseSel sel, natOf iv)], kinds := c.kinds ++ [parseKind k], fmts := c.fmts ++ [k] }, [])
+  | ["HDR", h, off] => ({ c with H := natOf h, ndbOff := natOf off, hasBytes := true }, [])
+  | ["ENC", id, h, d, j] =>
+    ({ c with encs := c.encs ++ [(natOf id, ⟨hexBytes h, hexBytes d⟩, (hexBytes j).map Char.ofNat)] }, [])
+  | ["FB", i, b] => ({ c with fbs := c.fbs ++ [(natOf i, hexBytes b)] }, [])
   | "FAULTS" :: r => ({ c with faults := (r.filter (· != "-")).map natOf }, [])
   | ["AUDIT", a] => ({ c with audit := c.audit ++ [a] }, [])
   | ["DS", sel, iv] => ({ c with dss := c.dss ++ [(parseSel sel, natOf iv)] }, [])
